@@ -62,9 +62,11 @@ def history_case(args):
         rer = t3.run_impl(sc, sp, timeout=60)
         if [p for p in left if os.path.basename(p).startswith("_scipipe_tmp")]:
             # some task of the re-run meets its own temp dir unless its outputs are already final: it then must refuse
-            reaches = rer["rc"] != 0
-            if not reaches and not rer["returned"]:
-                problems.append(("rerun-neither-completes-nor-fails", "rc=%s" % rer["rc"]))
+            # every task is formed again by the re-run, so the task that owns a left-over temp dir is reached: the run must stop
+            if rer["timed_out"]:
+                problems.append(("rerun-hangs", "the re-run with left-over temp dirs does not terminate"))
+            elif rer["rc"] == 0:
+                problems.append(("leftovers-adopted", "the re-run found left-over temp dirs %s and still exited with status 0 instead of stopping" % [p for p in left if os.path.basename(p).startswith("_scipipe_tmp")][:2]))
             problems += [(k, "after re-run with leftovers: " + m) for k, m in t3.atomicity_problems(sp, model, rer["fs"])]
         # optionally: crash the recovery run as well (nested crash)
         cleanup(sc.work)
